@@ -4,6 +4,7 @@ package lnwallet
 
 import (
 	"crypto/sha256"
+	"encoding/binary"
 	"fmt"
 	"os"
 	"path/filepath"
@@ -74,6 +75,14 @@ type vEntry struct {
 	RR  uint64 `json:"rR"`
 }
 
+// vFwd is one forwarding package as stored on disk.
+type vFwd struct {
+	H    uint64          `json:"h"`
+	Adds []uint64        `json:"adds"`
+	Sfs  [][]interface{} `json:"sfs"`
+	Ack  []int           `json:"ack"`
+}
+
 type vParty struct {
 	Lidx  uint64    `json:"lidx"`
 	Lhtlc uint64    `json:"lhtlc"`
@@ -84,6 +93,7 @@ type vParty struct {
 	L     []vEntry  `json:"L"`
 	R     []vEntry  `json:"R"`
 	Net   []string  `json:"net"`
+	Fwd   []vFwd    `json:"fwd"`
 }
 
 type vLine struct {
@@ -95,6 +105,7 @@ type vLine struct {
 	TxEq  int               `json:"txeq"`
 	SigOk map[string]int    `json:"sigok"`
 	RelH  int64             `json:"relh"`
+	NTx   map[string]int64  `json:"ntx"`
 	Type  string            `json:"type,omitempty"`
 	Opener string           `json:"opener,omitempty"`
 	Dust   map[string]int64  `json:"dust,omitempty"`
@@ -209,7 +220,7 @@ func vProject(lc *LightningChannel, out []vMsg) vParty {
 		Lidx: lc.updateLogs.Local.logIndex, Lhtlc: lc.updateLogs.Local.htlcCounter,
 		Ridx: lc.updateLogs.Remote.logIndex, Rhtlc: lc.updateLogs.Remote.htlcCounter,
 		L: vProjectLog(lc.updateLogs.Local), R: vProjectLog(lc.updateLogs.Remote),
-		Net: []string{}, LC: []vCommit{}, RC: []vCommit{},
+		Net: []string{}, LC: []vCommit{}, RC: []vCommit{}, Fwd: vProjectFwd(lc),
 	}
 	for e := lc.commitChains.Local.commitments.Front(); e != nil; e = e.Next() {
 		p.LC = append(p.LC, vProjectCommit(lc, e.Value))
@@ -221,6 +232,91 @@ func vProject(lc *LightningChannel, out []vMsg) vParty {
 		p.Net = append(p.Net, m.kind)
 	}
 	return p
+}
+
+// vProjectFwd reads the channel's forwarding packages back from the database.
+func vProjectFwd(lc *LightningChannel) []vFwd {
+	res := []vFwd{}
+	pkgs, err := lc.LoadFwdPkgs()
+	if err != nil {
+		return append(res, vFwd{H: 1 << 40, Adds: []uint64{}, Sfs: [][]interface{}{}, Ack: []int{}})
+	}
+	sort.Slice(pkgs, func(i, j int) bool { return pkgs[i].Height < pkgs[j].Height })
+	for _, p := range pkgs {
+		f := vFwd{H: p.Height, Adds: []uint64{}, Sfs: [][]interface{}{}, Ack: []int{}}
+		for i, u := range p.Adds {
+			if a, ok := u.UpdateMsg.(*lnwire.UpdateAddHTLC); ok {
+				f.Adds = append(f.Adds, a.ID)
+			} else {
+				f.Adds = append(f.Adds, 1<<40)
+			}
+			if p.AckFilter.Contains(uint16(i)) {
+				f.Ack = append(f.Ack, i)
+			}
+		}
+		for _, u := range p.SettleFails {
+			switch m := u.UpdateMsg.(type) {
+			case *lnwire.UpdateFulfillHTLC:
+				f.Sfs = append(f.Sfs, []interface{}{"settle", m.ID})
+			case *lnwire.UpdateFailHTLC:
+				f.Sfs = append(f.Sfs, []interface{}{"fail", m.ID})
+			case *lnwire.UpdateFailMalformedHTLC:
+				f.Sfs = append(f.Sfs, []interface{}{"fail", m.ID})
+			default:
+				f.Sfs = append(f.Sfs, []interface{}{"other", 0})
+			}
+		}
+		res = append(res, f)
+	}
+	return res
+}
+
+// vSourceRef finds the AddRef of an incoming HTLC in the channel's forwarding
+// packages, as the link does when it settles or fails a locked-in add.
+func vSourceRef(lc *LightningChannel, id uint64) *channeldb.AddRef {
+	pkgs, err := lc.LoadFwdPkgs()
+	if err != nil {
+		return nil
+	}
+	for _, p := range pkgs {
+		for i, u := range p.Adds {
+			if a, ok := u.UpdateMsg.(*lnwire.UpdateAddHTLC); ok && a.ID == id {
+				return &channeldb.AddRef{Height: p.Height, Index: uint16(i)}
+			}
+		}
+	}
+	return nil
+}
+
+// vDbTxid reads the id of the last committed read-write transaction from the
+// two meta pages of the channel's bbolt file (page header 16 bytes, txid at
+// offset 48 of the meta struct).  The difference between two calls is the
+// number of durable transactions in between: C02's "each API call is at most
+// one atomic kvdb transaction".
+func vDbTxid(lc *LightningChannel) int64 {
+	sdb, ok := lc.channelState.Db.(*channeldb.ChannelStateDB)
+	if !ok {
+		return -1
+	}
+	f, err := os.Open(sdb.GetParentDB().Path() + "/channel.db")
+	if err != nil {
+		return -1
+	}
+	defer f.Close()
+	best := int64(-1)
+	for _, off := range []int64{0, 4096} {
+		var b [80]byte
+		if _, err := f.ReadAt(b[:], off); err != nil {
+			continue
+		}
+		if binary.LittleEndian.Uint32(b[16:20]) != 0xED0CDAED {
+			continue
+		}
+		if tx := int64(binary.LittleEndian.Uint64(b[64:72])); tx > best {
+			best = tx
+		}
+	}
+	return best
 }
 
 func vReload(lc *LightningChannel) (*LightningChannel, error) {
@@ -327,8 +423,12 @@ func TestVerifChannelExec(t *testing.T) {
 			Dust: map[string]int64{
 				opener:    int64(alice.channelState.LocalChanCfg.DustLimit),
 				nonOpener: int64(bob.channelState.LocalChanCfg.DustLimit)},
-			St: map[string]vParty{}, Sh: map[string]vParty{}, SigOk: map[string]int{}})
+			St: map[string]vParty{}, Sh: map[string]vParty{}, SigOk: map[string]int{}, NTx: map[string]int64{}})
 
+		lastTx := map[string]int64{}
+		for n, s := range sides {
+			lastTx[n] = vDbTxid(s.lc)
+		}
 		for _, e := range evs[1:] {
 			me := sides[e.P]
 			peer := sides[other[e.P]]
@@ -379,20 +479,21 @@ func TestVerifChannelExec(t *testing.T) {
 				}
 				if e.Y == 1 {
 					pre := pres[pd.RHash]
-					err = me.lc.SettleHTLC(pre, pd.HtlcIndex, nil, nil, nil)
+					err = me.lc.SettleHTLC(pre, pd.HtlcIndex, vSourceRef(me.lc, pd.HtlcIndex), nil, nil)
 					if err == nil {
 						me.out = append(me.out, vMsg{kind: "settle", id: pd.HtlcIndex, pre: pre})
 					}
 				} else if e.Y == 2 {
 					// update_fail_malformed_htlc: the receiver handles it like a fail
 					err = me.lc.MalformedFailHTLC(
-						pd.HtlcIndex, lnwire.CodeInvalidOnionHmac, sha256.Sum256([]byte("onion")), nil,
+						pd.HtlcIndex, lnwire.CodeInvalidOnionHmac, sha256.Sum256([]byte("onion")),
+						vSourceRef(me.lc, pd.HtlcIndex),
 					)
 					if err == nil {
 						me.out = append(me.out, vMsg{kind: "fail", id: pd.HtlcIndex})
 					}
 				} else {
-					err = me.lc.FailHTLC(pd.HtlcIndex, []byte("x"), nil, nil, nil)
+					err = me.lc.FailHTLC(pd.HtlcIndex, []byte("x"), vSourceRef(me.lc, pd.HtlcIndex), nil, nil)
 					if err == nil {
 						me.out = append(me.out, vMsg{kind: "fail", id: pd.HtlcIndex})
 					}
@@ -505,6 +606,12 @@ func TestVerifChannelExec(t *testing.T) {
 			tl := vLine{vEv: e, St: map[string]vParty{}, Sh: map[string]vParty{}, SigOk: map[string]int{},
 				TxEq: txeq, RelH: relh}
 			tl.A = name
+			tl.NTx = map[string]int64{}
+			for n, s := range sides {
+				now := vDbTxid(s.lc)
+				tl.NTx[n] = now - lastTx[n]
+				lastTx[n] = now
+			}
 			if err != nil && name != "AddRejected" {
 				tl.Err = err.Error()
 			}
@@ -514,13 +621,13 @@ func TestVerifChannelExec(t *testing.T) {
 				tl.St[n] = vProject(s.lc, s.out)
 				tl.SigOk[n] = -1
 				if !doShadow {
-					tl.Sh[n] = vParty{Net: []string{}, LC: []vCommit{}, RC: []vCommit{}, L: []vEntry{}, R: []vEntry{}}
+					tl.Sh[n] = vParty{Net: []string{}, LC: []vCommit{}, RC: []vCommit{}, L: []vEntry{}, R: []vEntry{}, Fwd: []vFwd{}}
 					continue
 				}
 				sh, rerr := vReload(s.lc)
 				if rerr != nil {
 					tl.ShErr = n + ": " + rerr.Error()
-					tl.Sh[n] = vParty{Net: []string{}, LC: []vCommit{}, RC: []vCommit{}, L: []vEntry{}, R: []vEntry{}}
+					tl.Sh[n] = vParty{Net: []string{}, LC: []vCommit{}, RC: []vCommit{}, L: []vEntry{}, R: []vEntry{}, Fwd: []vFwd{}}
 					continue
 				}
 				tl.Sh[n] = vProject(sh, nil)
